@@ -68,6 +68,16 @@ func (l *loopPayload) ComposeFrom(events []*eventlogger.Event) (eventlogger.Even
 	return "outer", &loopPayload{id: "again", flush: true}, nil
 }
 
+// emptyWrap: a NodeUnwrapper with nothing inside
+type emptyWrap struct{ ty eventlogger.NodeType }
+
+func (w *emptyWrap) Process(ctx context.Context, e *eventlogger.Event) (*eventlogger.Event, error) {
+	return e, nil
+}
+func (w *emptyWrap) Reopen() error              { return nil }
+func (w *emptyWrap) Type() eventlogger.NodeType { return w.ty }
+func (w *emptyWrap) Unwrap() eventlogger.Node   { return nil }
+
 type wrapNode struct{ inner eventlogger.Node }
 
 func (w *wrapNode) Process(ctx context.Context, e *eventlogger.Event) (*eventlogger.Event, error) {
@@ -229,6 +239,20 @@ func reentryMain(args []string) {
 					ok = ok && watchdog("RemovePipelineAndNodes closing a gated.Filter whose composition is a Gateable flush event", oracle, func() {
 						lb.RemovePipelineAndNodes(ctx, "outer", "lp")
 					})
+				}
+				// a wrapper node with nothing inside (Unwrap returns nil), no Closer: there is nothing to close, and
+				// the calls that would close it return
+				{
+					eb, _ := eventlogger.NewBroker()
+					eb.RegisterNode("empty", &emptyWrap{eventlogger.NodeTypeFilter})
+					eb.RegisterNode("empty2", &emptyWrap{eventlogger.NodeTypeFilter})
+					eb.RegisterNode("efmt", mk(eventlogger.NodeTypeFormatter))
+					eb.RegisterNode("esink", mk(eventlogger.NodeTypeSink))
+					eb.RegisterPipeline(eventlogger.Pipeline{PipelineID: "ep", EventType: "inner", NodeIDs: []eventlogger.NodeID{"empty2", "efmt", "esink"}})
+					ok = ok && watchdog("RemoveNode of a NodeUnwrapper whose Unwrap returns nil", oracle, func() { eb.RemoveNode(ctx, "empty") })
+					ok = ok && watchdog("Send through a NodeUnwrapper whose Unwrap returns nil", oracle, func() { eb.Send(ctx, "inner", "x") })
+					ok = ok && watchdog("Reopen with a NodeUnwrapper whose Unwrap returns nil", oracle, func() { eb.Reopen(ctx) })
+					ok = ok && watchdog("RemovePipelineAndNodes closing a NodeUnwrapper whose Unwrap returns nil", oracle, func() { eb.RemovePipelineAndNodes(ctx, "inner", "ep") })
 				}
 				// a stock sink whose write(2) fails (its file is a symbolic link to /dev/full): the retry path of
 				// FileSink.Process runs with the sink's own lock held; Send, a second Send and Reopen all return
